@@ -23,6 +23,11 @@ Theorem C18_bht_input_gradient_refuted : exists g g' : Q, g <= g' /\ norm_gradie
 Proof. exact gradient_heuristic_not_monotone. Qed.
 Print Assumptions C18_bht_input_gradient_refuted.
 
+(* on either side of the heuristic the input gradient is monotone: both inputs above 1 (degC/km) or both at most 1 (degC/m) *)
+Theorem C18_bht_input_gradient_partial : forall g g' : Q, g <= g' -> (1 < g \/ g' <= 1) -> norm_gradient g <= norm_gradient g'.
+Proof. exact norm_gradient_mono_same_side. Qed.
+Print Assumptions C18_bht_input_gradient_partial.
+
 (* percentage-drawdown model: at every time the temperature does not increase when the drawdown rate increases *)
 Theorem C18_tdp_rate : forall Trock Tinj dd dd' ts, Tinj <= Trock -> Forall (fun t => 0 <= t) ts -> dd <= dd' ->
   Forall2 Qle (tdp_series Trock Tinj dd' ts) (tdp_series Trock Tinj dd ts).
